@@ -39,6 +39,17 @@ PlansOf(p, n) == IF n = 0 THEN {<<>>}
                  ELSE LET shorter == PlansOf(p, n - 1) IN
                       shorter \cup {<<o>> \o s : o \in OpsFor(p), s \in {x \in shorter : Len(x) = n - 1}}
 
+TruthClass(g) == IF TruthOfGoal(g) THEN "Unique" ELSE "None"
+
+(* Named deviation SLG_RootSkipsDelayedAnswer (chalk-engine/src/logic.rs root_answer ->
+   InvalidAnswer, solve.rs/aggregate.rs skip it): the table of the root goal was completed
+   while it was NOT the root (inside a coinductive cycle through another table), so one of
+   its answers still carries delayed subgoals; only a root table gets the refinement strand
+   that discharges them.  A later root query on that table skips the answer. *)
+StaleDelayed ==
+  stT # 0 /\ stT <= Len(tables) /\
+  \E i \in 1..Len(tables[stT].answers) : tables[stT].answers[i].del # <<>>
+
 NoCur == [kind |-> "none", goal |-> "", k |-> 0]
 
 Init ==
@@ -76,7 +87,8 @@ EngineStep ==
        /\ nev' = nev + 1
        /\ results' = IF e.ev = "OpEnd"
                      THEN Append(results, [goal |-> cur.goal, kind |-> cur.kind, k |-> cur.k,
-                                           class |-> e.class, nev |-> nev + 1, cb |-> cb, tb |-> tb])
+                                           class |-> e.class, nev |-> nev + 1, cb |-> cb, tb |-> tb,
+                                           truth |-> TruthClass(cur.goal), stale |-> StaleDelayed])
                      ELSE results
   /\ UNCHANGED <<prog, plan, cur>>
 
@@ -94,16 +106,28 @@ Spec == Init /\ [][Next]_vars
 ----------------------------------------------------------------------------
 (* Properties *)
 
-TruthClass(g) == IF TruthOfGoal(g) THEN "Unique" ELSE "None"
-
 \* No earlier call of this behaviour lost a strand to a panic (deviation SLG_PanicWhileStrandHeld)
 Clean == lost = <<>>
+
+\* no call up to the i-th ended in a panic (injected, or the engine's own: deviation
+\* SLG_NegativeOnDelayedAnswer); after a panic a strand may be lost (SLG_PanicWhileStrandHeld)
+NoPanicUpTo(i) == \A j \in 1..i : results[j].class # "Panic"
+
+\* the engine's own panic needs a stale delayed answer, i.e. an earlier call on the same forest
+EnginePanicShape ==
+  \A i \in 1..Len(results) : (results[i].class = "Panic" /\ results[i].kind # "panic") => i > 1
 
 \* C02 / C10 / C12: a completed `solve` of a closed goal returns what the program means,
 \* whatever was solved, interrupted or panicked before on the same forest.
 ResultsCorrect ==
   \A i \in 1..Len(results) :
-     results[i].kind = "solve" => results[i].class = TruthClass(results[i].goal)
+     (results[i].kind = "solve" /\ ~results[i].stale /\ NoPanicUpTo(i)) => results[i].class = TruthClass(results[i].goal)
+
+\* the deviation is only ever wrong in one direction: a true goal is answered "no solution"
+DeviationShape ==
+  \A i \in 1..Len(results) :
+     (results[i].kind = "solve" /\ results[i].stale /\ results[i].class # results[i].truth)
+        => (results[i].truth = "Unique" /\ results[i].class = "None" /\ i > 1)
 
 \* the same, restricted to histories in which no strand was lost by a panic
 ResultsCorrectUnlessLost == Clean => ResultsCorrect
@@ -111,7 +135,7 @@ ResultsCorrectUnlessLost == Clean => ResultsCorrect
 \* C11: an interrupted solve returns the full answer or "Ambiguous; no guidance"
 InterruptSafe ==
   \A i \in 1..Len(results) :
-     results[i].kind = "limited" => results[i].class \in {TruthClass(results[i].goal), "Unknown"}
+     (results[i].kind = "limited" /\ ~results[i].stale /\ NoPanicUpTo(i)) => results[i].class \in {TruthClass(results[i].goal), "Unknown"}
 
 \* C12: a call during which a callback panicked reports the panic (and nothing else)
 PanicReported ==
